@@ -10,6 +10,7 @@
 -/
 import StVerif.Lemmas.StrPoolReach
 import StVerif.Props.C04
+import StVerif.Lemmas.StreamOps
 
 namespace StVerif.Props.C18
 open StVerif StVerif.Pool StVerif.StrPool
@@ -86,6 +87,20 @@ theorem appendChar_throws_iff {L : Nat} (hL : 0 < L) {p : Pool} (hr : SReach L p
     · rintro ⟨p'', h2⟩; simp only [SOp.run] at h2; rw [h1] at h2; cases h2
     · intro h; rw [hw.mpr h] at hs; cases hs
   · exact ⟨fun _ => hw.mp hn, fun _ => ⟨p', h1⟩⟩
+
+/-! ### stream insertion (`include/st_stringstream.h`: `operator<<` of wide text converts into a local, then appends) -/
+
+/-- **a failed insertion leaves every stream as it was**: in any state satisfying the stream machine's invariant, when an
+    operation of the `string_stream` model (every `append` / `operator<<` overload, `truncate`, `erase`, moves, `to_string`)
+    throws `unicode_error` — wide text the default validation rejects — the content `raw_buffer()[0, size())` of *every* live
+    stream is what it was, the invariant (ownership, no leak) still holds, and no allocation fault was involved -/
+theorem stream_insertion_strong_guarantee {p p' : Stream.Pool} (hi : Stream.Inv p) (op : Stream.Op) (hwf : op.wf)
+    (hok : Spec.ByteLog.ok (Stream.abs p) op.toSpec = true) (h : op.run .repaired p = .throw .unicodeError p') :
+    Stream.Inv p' ∧ Stream.abs p' = Stream.abs p ∧ p'.failAt = p.failAt := by
+  rcases Stream.step_sound hi op hwf hok with ⟨q, h1, _⟩ | ⟨q, h1, h2, h3, _, h5⟩ | ⟨q, h1, _⟩
+  · rw [h] at h1; cases h1
+  · rw [h] at h1; cases h1; exact ⟨h2, h3, h5⟩
+  · rw [h] at h1; cases h1
 
 /-! ### the hypotheses are satisfiable: a throwing call exists in a reachable state -/
 
